@@ -103,9 +103,10 @@ def run(ck, P):
             continue
         n += 1
         dts = [i for i, e in enumerate(evs) if e.kind == "call" and e.callee is None and S(e.e["fn"]) == "m->dtor"]
-        want = assumed.get("m->dtor") is True and assumed.get("(entry->data == value)") is not True
+        want = assumed.get("m->dtor") is not False and assumed.get("(entry->data == value)") is not True
         if want and not (len(dts) == 1 and dts[0] < stores[0] and S(evs[dts[0]].args[0]) == "entry->data"):
-            bad = ("update path with a destructor set replaces the value without destroying the old one", path)
+            bad = ("update path replaces the value of a live entry without destroying the old one (destructor %s)"
+                   % ("set" if assumed.get("m->dtor") else "never consulted"), path)
         if assumed.get("m->dtor") is False and dts:
             bad = ("destructor called although none is set", path)
         if bad:
